@@ -74,6 +74,11 @@ pub fn make_grid(kind: &str, n: usize, l: f64) -> Grid {
         "cylindrical" => Grid::Cylindrical { r: Axis::new_polar(n, len), z: Axis::new_cartesian((n / 2).min(32), len * 0.7, None) },
         "cartesian3" => Grid::Cartesian3(Axis::new_cartesian(n, len, None), Axis::new_cartesian(n, len, None), Axis::new_cartesian(n / 2, len * 0.7, None)),
         "periodical3" => Grid::Periodical3(Axis::new_cartesian(n, len, None), Axis::new_cartesian(n, len, None), Axis::new_cartesian(n, len, None), [90.0 * DEGREES, 90.0 * DEGREES, 60.0 * DEGREES]),
+        // further unit cells: rectangular, 45 degrees and anisotropic; orthorhombic and triclinic
+        "periodical2@90" => Grid::Periodical2(Axis::new_cartesian(n, len, None), Axis::new_cartesian(n / 2, len * 0.7, None), 90.0 * DEGREES),
+        "periodical2@45" => Grid::Periodical2(Axis::new_cartesian(n, len, None), Axis::new_cartesian(n, len * 1.3, None), 45.0 * DEGREES),
+        "periodical3@90" => Grid::Periodical3(Axis::new_cartesian(n, len, None), Axis::new_cartesian(n, len, None), Axis::new_cartesian(n / 2, len * 0.7, None), [90.0 * DEGREES, 90.0 * DEGREES, 90.0 * DEGREES]),
+        "periodical3@tri" => Grid::Periodical3(Axis::new_cartesian(n, len, None), Axis::new_cartesian(n, len * 1.2, None), Axis::new_cartesian(n, len * 0.8, None), [70.0 * DEGREES, 80.0 * DEGREES, 60.0 * DEGREES]),
         _ => panic!("unknown grid {kind}"),
     }
 }
@@ -189,7 +194,7 @@ where
 fn case(c: &Case, rec: &mut Rec) {
     match c.kind {
         "cartesian1" | "spherical" | "polar" => check::<ndarray::Ix1>(c, rec),
-        "cartesian2" | "periodical2" | "cylindrical" => check::<ndarray::Ix2>(c, rec),
+        "cartesian2" | "periodical2" | "periodical2@90" | "periodical2@45" | "cylindrical" => check::<ndarray::Ix2>(c, rec),
         _ => check::<ndarray::Ix3>(c, rec),
     }
 }
@@ -202,14 +207,27 @@ pub fn run(ctx: &mut Ctx) {
         for &eta in &f.etas {
             let grids: Vec<(&'static str, Vec<usize>)> = match tier {
                 Tier::Quick => vec![("cartesian1", vec![64, 256]), ("spherical", vec![128]), ("polar", vec![128]), ("cartesian2", vec![32]), ("periodical2", vec![32]), ("cylindrical", vec![32]), ("cartesian3", vec![16]), ("periodical3", vec![16])],
-                Tier::Thorough => vec![("cartesian1", vec![16, 64, 256, 1024, 4096]), ("spherical", vec![16, 64, 256, 1024]), ("polar", vec![16, 64, 256, 1024]), ("cartesian2", vec![16, 64]), ("periodical2", vec![16, 64]), ("cylindrical", vec![16, 64]), ("cartesian3", vec![8, 16, 32]), ("periodical3", vec![8, 16, 32])],
+                Tier::Thorough => vec![
+                    ("cartesian1", vec![16, 64, 256, 1024, 4096]),
+                    ("spherical", vec![16, 64, 128, 256, 1024, 4096]),
+                    ("polar", vec![16, 64, 128, 256, 1024, 4096]),
+                    ("cartesian2", vec![16, 32, 64, 128]),
+                    ("periodical2", vec![16, 32, 64, 128]),
+                    ("periodical2@90", vec![16, 64]),
+                    ("periodical2@45", vec![16, 64]),
+                    ("cylindrical", vec![16, 32, 64, 128]),
+                    ("cartesian3", vec![8, 16, 32]),
+                    ("periodical3", vec![8, 16, 32]),
+                    ("periodical3@90", vec![8, 16]),
+                    ("periodical3@tri", vec![8, 16]),
+                ],
             };
             for (kind, ns) in grids {
                 for n in ns {
-                    for l in tier.pick(vec![40.0], vec![20.0, 40.0, 100.0]) {
-                        for lanczos in [None, Some(1)] {
+                    for l in tier.pick(vec![40.0], vec![10.0, 20.0, 40.0, 100.0, 300.0]) {
+                        for lanczos in tier.pick(vec![None, Some(1)], vec![None, Some(1), Some(2)]) {
                             // 3-D grids only with one length / small functionals in the quick tier
-                            if kind.ends_with('3') && (l != 40.0 || (n >= 32 && f.x.len() > 1)) {
+                            if kind.contains('3') && (l != 40.0 || (n >= 32 && f.x.len() > 1)) {
                                 continue;
                             }
                             cases.push(Case { f: f.clone(), eta, kind, n, l, lanczos });
